@@ -4,6 +4,7 @@ package main
 
 import (
 	"fmt"
+	"strings"
 	"strconv"
 
 	"gosym/interp"
@@ -37,12 +38,22 @@ var histShapesThorough = []histShape{
 }
 
 func histJobs(shapes []histShape, steps int, force, crash, rm int) []jobSpec {
+	return histJobsX(shapes, steps, force, crash, rm, 0, 0)
+}
+
+// histJobsX: runerr = 1 lets the runner itself fail on any command (an error, not an exit status);
+// missing = 1 lets each literal dependency file be absent at each step (hashing then fails).
+func histJobsX(shapes []histShape, steps int, force, crash, rm, runerr, missing int) []jobSpec {
 	var out []jobSpec
 	for _, sh := range shapes {
 		p := map[string]string{"spokfile": sh.spokfile, "files": sh.files, "globfiles": sh.globfiles, "requests": sh.requests,
-			"steps": strconv.Itoa(steps), "force": strconv.Itoa(force), "crash": strconv.Itoa(crash), "rmcache": strconv.Itoa(rm)}
-		out = append(out, jobSpec{Name: fmt.Sprintf("History[%s steps=%d force=%d crash=%d]", sh.name, steps, force, crash), Func: "History", Params: p,
-			Opts: interp.Options{Budget: 20_000_000}})
+			"steps": strconv.Itoa(steps), "force": strconv.Itoa(force), "crash": strconv.Itoa(crash), "rmcache": strconv.Itoa(rm),
+			"runerr": strconv.Itoa(runerr), "missing": strconv.Itoa(missing)}
+		name := fmt.Sprintf("History[%s steps=%d force=%d crash=%d]", sh.name, steps, force, crash)
+		if runerr+missing > 0 {
+			name = fmt.Sprintf("History[%s steps=%d force=%d crash=%d runerr=%d missing=%d]", sh.name, steps, force, crash, runerr, missing)
+		}
+		out = append(out, jobSpec{Name: name, Func: "History", Params: p, Opts: interp.Options{Budget: 20_000_000}})
 	}
 	return out
 }
@@ -53,6 +64,12 @@ func indJobs(shapes []histShape) []jobSpec {
 	for _, sh := range shapes {
 		p := map[string]string{"spokfile": sh.spokfile, "files": sh.files, "globfiles": sh.globfiles, "requests": sh.requests, "force": "1"}
 		out = append(out, jobSpec{Name: fmt.Sprintf("InductiveStep[%s]", sh.name), Pkg: "indh", Func: "Step", Params: p, Opts: interp.Options{Budget: 40_000_000}})
+		if strings.Count(sh.spokfile, "task ") > 1 {
+			// the invocation may also stop part-way: the runner fails on a command, a literal
+			// dependency file is missing
+			q := map[string]string{"spokfile": sh.spokfile, "files": sh.files, "globfiles": sh.globfiles, "requests": sh.requests, "force": "1", "runerr": "1", "missing": "1"}
+			out = append(out, jobSpec{Name: fmt.Sprintf("InductiveStep[%s runerr=1 missing=1]", sh.name), Pkg: "indh", Func: "Step", Params: q, Opts: interp.Options{Budget: 40_000_000}})
+		}
 	}
 	return out
 }
@@ -131,7 +148,12 @@ func histCheck(id, title string, force, crash int, explain string) *checkDef {
 			out = append(out, histJobs(byName("one-file-task", "file-task+no-dep-task"), 3, 0, 0, 0)...)
 			out = append(out, histJobs(byName("one-file-task"), 3, 1, 0, 0)...)
 			out = append(out, histJobs(byName("one-file-task"), 3, 0, 0, 1)...)
+			// runs that stop with an error part-way (the runner cannot run a command; a literal
+			// dependency file is missing): what earlier tasks of that run recorded must survive
+			out = append(out, histJobsX(byName("two-file-tasks", "chain"), 2, 0, 0, 0, 1, 1)...)
 			if tier == "thorough" {
+				out = append(out, histJobsX(byName("two-file-tasks"), 3, 0, 0, 0, 1, 0)...)
+				out = append(out, histJobsX(byName("two-file-tasks", "chain", "file-task+no-dep-task", "shared-file"), 3, 1, 0, 0, 1, 1)...)
 				out = append(out, histJobs(byName("two-file-tasks"), 3, 0, 0, 0)...)
 				out = append(out, histJobs(byName("two-file-tasks"), 3, 1, 0, 0)...)
 				out = append(out, histJobs(histShapesThorough, 2, 1, 0, 1)...)
